@@ -79,8 +79,8 @@ FILE_LEVEL = {"pragma-once-by-include-name", "duplicate-api-define", "paste-in-a
 
 def custom(ctx):
     """standard run + cross-check of the class of the refinement theorem against the real code:
-    the model's driver decides (`C12.tame`, Model/MacroTame.lean `tameRun` on every block of text lines) whether a
-    program lies in the class on which `expand_refines_spec_decided` proves rssl = reference C algorithm.  On such a
+    the model's driver decides (`C12.tame`, Model/MacroTame.lean `tameRunP` on every block of text lines) whether a
+    program lies in the class on which `expand_refines_spec_with_paste_decided` proves rssl = reference C algorithm.  On such a
     program the real preprocessor must not differ from the harness's independent reference preprocessor in any way
     that concerns macro expansion."""
     ctx.standard_run()
@@ -106,18 +106,18 @@ def custom(ctx):
                 bad.append((req, obs, orc))
     ctx.extra["tame_class"] = {
         "programs_classified": len(reqs), "tame": tame, "tame_but_real_differs_from_reference": len(bad),
-        "meaning": "tame = every block of text lines of the program is accepted by tameRun (class of "
-                   "expand_refines_spec_decided); on those the real output must equal the reference preprocessor's"}
-    ctx.say(f"[{ctx.id}] class of expand_refines_spec_decided: {tame} of {len(reqs)} programs are tame, "
+        "meaning": "tame = every block of text lines of the program is accepted by tameRunP (class of "
+                   "expand_refines_spec_with_paste_decided); on those the real output must equal the reference preprocessor's"}
+    ctx.say(f"[{ctx.id}] class of expand_refines_spec_with_paste_decided: {tame} of {len(reqs)} programs are tame, "
             f"{len(bad)} of them differ from the reference")
     for req, obs, orc in bad[:3]:
-        ctx.broken.append("expand_refines_spec_decided claims rssl = C on a tame program, but the real preprocessor "
+        ctx.broken.append("expand_refines_spec_with_paste_decided claims rssl = C on a tame program, but the real preprocessor "
                           f"differs from the reference on it: {req!r} -> {obs!r} ({orc})")
     if bad:
         # a concrete failing input: the real code violates the property on an input where the proof says it cannot
         req, obs, orc = min(bad, key=lambda b: len(b[0]))
         path = ctx.write_replay("input", {"request": req, "observed": obs, "oracle": orc,
-                                          "found_by": "tame program (class of expand_refines_spec_decided) on which the "
+                                          "found_by": "tame program (class of expand_refines_spec_with_paste_decided) on which the "
                                                       "real preprocessor differs from the reference preprocessor"})
         ctx.violations.append((path, ""))
 
@@ -130,6 +130,7 @@ SPEC = {
         "source_shape", "expand_terminates", "expand_never_hangs", "object_like_is_substitution", "function_like_is_substitution",
         "define_undef_scoping", "macro_names_always_distinct", "api_defines_equal_file_defines",
         "expand_refines_spec_partial", "expand_refines_spec", "expand_refines_spec_decided", "tame_class_is_decided",
+        "expand_refines_spec_with_paste", "expand_refines_spec_with_paste_decided",
         "object_like_refines_spec",
         "trailing_function_name_is_invoked", "paste_is_single_token", "paste_matches_lexer",
         "parse_yields_wellformed_macro", "directive_takes_effect_from_its_line",
@@ -138,7 +139,7 @@ SPEC = {
         "differs_line_end_before_parenthesis", "differs_unused_argument_expanded", "differs_argument_repainted",
         "differs_painted_function_name_reinvoked", "differs_painted_function_name_reinvoked_acyclic",
         "differs_function_name_before_vanished_macro", "differs_empty_argument_next_to_paste",
-        "agrees_on_invocation_completed_after_expansion"]],
+        "agrees_on_invocation_completed_after_expansion", "differs_outside_class_with_paste"]],
     "harness": "c12",
     "nontrivial": nontrivial,
     "finding_key": finding_key,
@@ -178,7 +179,7 @@ SPEC = {
             "blanks at token boundaries; redefinitions and #undef between the sites; 1-5 files with and without #pragma once, "
             "repeated and back-edge includes; every leading object-like definition placed in the file, in the API list, and split; "
             "generated programs run in a worker process under a time/memory limit (expansion blow-up = known finding); "
-            "every program is also classified by the model (C12.tame): inside the class of expand_refines_spec_decided the "
+            "every program is also classified by the model (C12.tame): inside the class of expand_refines_spec_with_paste_decided the "
             "real output must equal the reference; non-trivial = a macro is defined and at least three tokens come out",
     "trusted_base": [
         "Lean 4.33 kernel; axioms propext / Classical.choice / Quot.sound only (audited by #print axioms)",
